@@ -372,6 +372,16 @@ pub fn run(ctx: &Ctx, rep: &mut Report) {
         let site = SITES[(i as usize) % SITES.len()];
         check(site, norm[(i as usize) / SITES.len()], &format!("norm:{}", i), rep);
     });
+    // the generated family of placeholder spellings (syntaxes x names), alone and embedded in a longer word
+    let fam = placeholder_family();
+    let nf = ctx.pick((fam.len() * 4) as u64, (fam.len() * SITES.len() * 2) as u64);
+    par_cases(ctx, "placeholder", nf, rep, |i, rep| {
+        let mut r = Rng::for_case(ctx.seed, "placeholder", i);
+        let site = SITES[r.usize(SITES.len())];
+        let f = &fam[(i as usize) % fam.len()];
+        let s = if (i as usize / fam.len()) % 2 == 0 { f.clone() } else { format!("backup{}0003", f) };
+        check(site, &s, &format!("placeholder:{}", i), rep);
+    });
     // constructor route: strings no quoting style can carry, and the xattr name inside a format
     let n_ctor = ctx.pick(4000, 400_000);
     par_cases(ctx, "ctor", n_ctor, rep, |i, rep| {
